@@ -301,3 +301,73 @@ func verifHashAgree(a, b Object) bool {
 //@ expand Equals
 //@ requires scalar(a) && scalar(b) && typeof(a) == typeof(b)
 //@ ensures[C15.hash.agree] result
+
+// ---- maps: every operation against the finite-map model (dom, val), whole-map postconditions -----------------
+
+//@ spec mhas(m, k) = haskey(m.items, k)
+//@ spec mval(m, k) = m.items[k]
+
+//@ func (*Map).Get
+//@ props C16
+//@ requires m != nil
+//@ modifies nothing
+//@ ensures[C16.map.get] result == ite(mhas(m, key), mval(m, key), Nil)
+
+//@ func (*Map).GetWithDefault
+//@ props C16
+//@ requires m != nil
+//@ modifies nothing
+//@ ensures[C16.map.getdefault] result == ite(mhas(m, key), mval(m, key), defaultValue)
+
+//@ func (*Map).Set
+//@ props C16
+//@ requires m != nil && m.items != nil
+//@ modifies mapof(m.items)
+//@ ensures[C16.map.set.dom] forallT(k, string, mhas(m, k) == (k == key || old(mhas(m, k))))
+//@ ensures[C16.map.set.val] forallT(k, string, mhas(m, k) ==> mval(m, k) == ite(k == key, value, old(mval(m, k))))
+
+//@ func (*Map).Delete
+//@ props C16
+//@ requires m != nil
+//@ modifies mapof(m.items)
+//@ ensures[C16.map.delete.dom] forallT(k, string, mhas(m, k) == (k != key && old(mhas(m, k))))
+//@ ensures[C16.map.delete.val] forallT(k, string, mhas(m, k) ==> mval(m, k) == old(mval(m, k)))
+
+//@ func (*Map).Pop
+//@ props C16
+//@ requires m != nil
+//@ modifies mapof(m.items)
+//@ ensures[C16.map.pop.res] result == ite(old(mhas(m, key)), old(mval(m, key)), ite(def != nil, def, Nil))
+//@ ensures[C16.map.pop.dom] forallT(k, string, mhas(m, k) == (k != key && old(mhas(m, k))))
+//@ ensures[C16.map.pop.val] forallT(k, string, mhas(m, k) ==> mval(m, k) == old(mval(m, k)))
+
+//@ func (*Map).SetDefault
+//@ props C16
+//@ requires m != nil && m.items != nil
+//@ modifies mapof(m.items)
+//@ ensures[C16.map.setdefault.res] result == ite(old(mhas(m, key)), old(mval(m, key)), value)
+//@ ensures[C16.map.setdefault.dom] forallT(k, string, mhas(m, k) == (k == key || old(mhas(m, k))))
+//@ ensures[C16.map.setdefault.val] forallT(k, string, mhas(m, k) ==> mval(m, k) == ite(k == key && !old(mhas(m, key)), value, old(mval(m, k))))
+
+//@ func (*Map).Update
+//@ props C16
+//@ requires m != nil && m.items != nil && other != nil
+//@ modifies mapof(m.items)
+//@ invariant 1: forallT(k, string, mhas(m, k) == (old(mhas(m, k)) || (seen(k) && old(mhas(other, k))))) && forallT(k, string, mhas(m, k) ==> mval(m, k) == ite(seen(k) && old(mhas(other, k)), old(mval(other, k)), old(mval(m, k)))) && (m.items != other.items ==> forallT(k, string, mhas(other, k) == old(mhas(other, k)) && mval(other, k) == old(mval(other, k))))
+//@ ensures[C16.map.update.dom] m.items != other.items ==> forallT(k, string, mhas(m, k) == (old(mhas(m, k)) || old(mhas(other, k))))
+//@ ensures[C16.map.update.val] m.items != other.items ==> forallT(k, string, mhas(m, k) ==> mval(m, k) == ite(old(mhas(other, k)), old(mval(other, k)), old(mval(m, k))))
+
+//@ func (*Map).Copy
+//@ props C16
+//@ requires m != nil
+//@ modifies nothing
+//@ invariant 1: fresh(items) && forallT(k, string, haskey(items, k) == (seen(k) && mhas(m, k))) && forallT(k, string, haskey(items, k) ==> items[k] == mval(m, k))
+//@ ensures[C16.map.copy.fresh] result != nil && fresh(result) && fresh(result.items) && result.items != m.items
+//@ ensures[C16.map.copy.dom] forallT(k, string, mhas(result, k) == mhas(m, k))
+//@ ensures[C16.map.copy.val] forallT(k, string, mhas(m, k) ==> mval(result, k) == mval(m, k))
+
+//@ func (*Map).Clear
+//@ props C16
+//@ requires m != nil
+//@ modifies m.items
+//@ ensures[C16.map.clear] forallT(k, string, !mhas(m, k))
